@@ -7,6 +7,9 @@ from concurrent.futures import ThreadPoolExecutor
 V = os.path.dirname(os.path.dirname(os.path.abspath(__file__)))
 ALL = ["C%02d" % i for i in range(1, 21)]
 args = sys.argv[1:]
+append = "--append" in args          # run the given patches and merge their rows into the existing EQUIV.md
+if append:
+    args.remove("--append")
 jobs = 4
 if "-j" in args:
     i = args.index("-j")
@@ -34,6 +37,13 @@ def run(d):
 with ThreadPoolExecutor(max_workers=jobs) as ex:
     rows = [r for rs in ex.map(run, patches) for r in rs]
 bad = sum(1 for r in rows if r[2] != "0")
+if append and args:
+    md = os.path.join(V, "selftest", "EQUIV.md")
+    old = open(md).read().splitlines() if os.path.exists(md) else []
+    names = {os.path.basename(a) for a in args}
+    keep = [l for l in old if not any(l.startswith("| %s |" % n) for n in names)]
+    new = ["| %s | %s | %s |" % (a, b, "silent" if c == "0" else "ALARM (exit %s) %s" % (c, d)) for a, b, c, d in rows]
+    open(md, "w").write("\n".join(keep + new) + "\n")
 if not args:
     open(os.path.join(V, "selftest", "EQUIV.md"), "w").write(
         "# Behaviour-preserving refactorings vs. checks (every entry must be `silent`)\n\n"
